@@ -5,6 +5,7 @@ import (
 	"reflect"
 	"regexp"
 	"sort"
+	"strings"
 
 	"github.com/aws/aws-sdk-go-v2/service/dynamodb/types"
 	"github.com/aws/aws-sdk-go/service/dynamodb"
@@ -97,11 +98,11 @@ func locsMapV2(path string, m map[string]types.AttributeValue, out *[]pokeLoc) {
 func locsV2(path string, a types.AttributeValue, out *[]pokeLoc) {
 	switch x := a.(type) {
 	case *types.AttributeValueMemberS:
-		*out = append(*out, pokeLoc{path + ".S", "S", func() func() { old := x.Value; x.Value = "POKED"; return func() { x.Value = old } }})
+		*out = append(*out, pokeLoc{path + ".S", "S-target", func() func() { old := x.Value; x.Value = "POKED"; return func() { x.Value = old } }})
 	case *types.AttributeValueMemberN:
-		*out = append(*out, pokeLoc{path + ".N", "N", func() func() { old := x.Value; x.Value = "424242"; return func() { x.Value = old } }})
+		*out = append(*out, pokeLoc{path + ".N", "N-target", func() func() { old := x.Value; x.Value = "424242"; return func() { x.Value = old } }})
 	case *types.AttributeValueMemberBOOL:
-		*out = append(*out, pokeLoc{path + ".BOOL", "BOOL", func() func() { old := x.Value; x.Value = !old; return func() { x.Value = old } }})
+		*out = append(*out, pokeLoc{path + ".BOOL", "BOOL-target", func() func() { old := x.Value; x.Value = !old; return func() { x.Value = old } }})
 	case *types.AttributeValueMemberB:
 		if len(x.Value) > 0 {
 			*out = append(*out, pokeLoc{path + ".B[0]", "B-byte", func() func() { x.Value[0] ^= 0xff; return func() { x.Value[0] ^= 0xff } }})
@@ -238,6 +239,24 @@ func pokeKept(kept map[int]*retained, stats map[string]int, sdk string, ref int,
 	}
 	if slot < 0 {
 		slot = -slot
+	}
+	if slot >= 40 {
+		// the upper slots scribble through shared pointers and backing arrays only
+		// (what a shallow copy leaves shared), and through the key first
+		var deep, key []pokeLoc
+		for _, l := range locs {
+			if strings.HasSuffix(l.kind, "-target") || strings.HasSuffix(l.kind, "-byte") {
+				deep = append(deep, l)
+				if strings.Contains(l.desc, "Key.") {
+					key = append(key, l)
+				}
+			}
+		}
+		if len(key) > 0 && slot >= 52 {
+			locs = key
+		} else if len(deep) > 0 {
+			locs = deep
+		}
 	}
 	l := locs[slot%len(locs)]
 	undoStack = append(undoStack, l.do())
